@@ -1,2 +1,4 @@
 pub mod c14;
 pub mod c13;
+pub mod c20;
+pub mod c09;
